@@ -21,7 +21,22 @@ def input_combinators(circ: sim.Circuit) -> dict[str, int]:
 
 def apply_inputs(circ: sim.Circuit, prog: lang.Program, valuation: dict, inputs_map=None) -> list[str]:
     """Override declared inputs. Returns the names that have no labelled combinator."""
-    inputs_map = inputs_map if inputs_map is not None else input_combinators(circ)
+    inputs_map = dict(inputs_map if inputs_map is not None else input_combinators(circ))
+    # the compiler labels a constant with the last alias declared for it (`Signal y = x;`,
+    # `Bundle b = { x };`): resolve aliases back to the declared input
+    alias = {}
+    for s in prog.stmts:
+        if isinstance(s, lang.Decl):
+            e = s.e
+            while isinstance(e, lang.Paren):
+                e = e.e
+            if isinstance(e, lang.BLit) and len(e.elems) == 1:
+                e = e.elems[0]
+            if isinstance(e, lang.Ref):
+                alias[s.name] = alias.get(e.name, e.name)
+    for a, root in alias.items():
+        if root in valuation and root not in inputs_map and a in inputs_map:
+            inputs_map[root] = inputs_map[a]
     missing = []
     for name, val in valuation.items():
         num = inputs_map.get(name)
